@@ -20,4 +20,5 @@ def rank_chop_contract(ex, f, args, kwargs):
 
 def install(ex, rank_chop=True):
     if rank_chop:
-        ex.call_hooks['torchtt._decomposition.rank_chop'] = rank_chop_contract
+        from ttvc import gauge
+        ex.call_hooks['torchtt._decomposition.rank_chop'] = gauge.rank_chop_contract
